@@ -329,6 +329,16 @@ func execC13(p *DBPlan, rc *simkit.RunCtx) {
 		onReply := func(data []byte) {
 			if p.SlowQuery > 0 && ci == 0 && !slowDone && strings.Contains(string(data), "|ok|") {
 				slowDone = true
+				// while the client does not read, the records of the result are rewritten with larger content (what
+				// the query hands out later is what was stored under each key at some point, never anything else)
+				go func() {
+					time.Sleep(time.Second)
+					big := strings.Repeat("x", 3000)
+					for i := 0; i < p.SlowQuery; i++ {
+						k := fmt.Sprintf("testdb:json/bulk%02d", i)
+						_ = priv.Put(wj(k, fmt.Sprintf("mid-%d", i), "alpha"+big))
+					}
+				}()
 				time.Sleep(3 * time.Second) // the client does not read for a while
 			}
 			if p.Stall > 0 && ci == 0 && stallGate != nil {
@@ -601,6 +611,28 @@ func checkC13(p *DBPlan, rc *simkit.RunCtx) {
 			}
 			if want > 0 {
 				rc.Probe("malformed-message-answered")
+			}
+		}
+		if p.SlowQuery > 0 {
+			// every record a query hands out for one of the bulk keys is one that was stored under that key
+			for _, r := range cs.replies {
+				if r.Type != "ok" || !strings.HasPrefix(r.Key, "testdb:json/bulk") {
+					continue
+				}
+				var got map[string]any
+				idx := strings.TrimLeft(strings.TrimPrefix(r.Key, "testdb:json/bulk"), "0")
+				if idx == "" {
+					idx = "0"
+				}
+				n := ""
+				if json.Unmarshal([]byte(strings.TrimPrefix(r.Data, "J")), &got) == nil {
+					n, _ = got["N"].(string)
+				}
+				if n != "bulk-"+idx && n != "mid-"+idx && n != "late-"+idx {
+					rc.Fail("C13.read-back", "a record handed out by a query does not have the content that was stored under its key", fmt.Sprintf("%s: N=%q (%d bytes)", r.Key, n, len(r.Data)))
+					return
+				}
+				rc.Probe("query-content-checked")
 			}
 		}
 		for _, op := range cs.order {
